@@ -33,7 +33,31 @@ type Case struct {
 	Guard     int          `json:",omitempty"` // guard-page placement for C roots (see arr.NewRoot)
 }
 
+// genBig draws a whole-array case on a large array whose element count sits next to a power of two or a multiple
+// of a common block size: where a size-thresholded or blocked fast path has its fencepost.
+func genBig(t *rapid.T) Case {
+	c := Case{Typ: rapid.SampledFrom(arr.Types[:6]).Draw(t, "type"), C: rapid.IntRange(0, 3).Draw(t, "cbacked") == 0}
+	n := rapid.SampledFrom([]int{1024, 4096, 8192, 16384, 32768, 65536}).Draw(t, "block")*rapid.IntRange(1, 2).Draw(t, "mult") + rapid.IntRange(-3, 3).Draw(t, "delta")
+	shape := []int{n}
+	if rapid.Bool().Draw(t, "bigFactored") {
+		shape = vg.Factor(t, n, "bigShape")
+	}
+	c.V = vg.ViewSpec{Root: shape, Class: "big"}
+	c.W = vg.ViewSpec{Root: append([]int(nil), shape...), Class: "big"}
+	c.NewShape = vg.Factor(t, n, "ns")
+	c.FastShape = vg.Factor(t, n, "fs")
+	c.PokeAt = rapid.IntRange(0, n-1).Draw(t, "poke")
+	c.Op = rapid.SampledFrom([]string{"scale", "addTo", "applyFunc", "copyFrom"}).Draw(t, "op")
+	c.VIsDest = rapid.Bool().Draw(t, "vIsDest")
+	c.WC = rapid.IntRange(0, 3).Draw(t, "wC") == 0
+	c.K = rapid.IntRange(0, 5).Draw(t, "k")
+	return c
+}
+
 func Gen(t *rapid.T) Case {
+	if rapid.IntRange(0, 39).Draw(t, "big") == 0 {
+		return genBig(t)
+	}
 	c := Case{Typ: rapid.SampledFrom(arr.Types).Draw(t, "type"), C: rapid.Bool().Draw(t, "cbacked")}
 	maxExt := 6
 	if pbt.Thorough() {
@@ -171,6 +195,10 @@ func Exec(c Case, trace *[]string) (r pbt.Result) {
 		return
 	}
 	r.Label("V:" + contigClass(mv))
+	if c.V.Class == "big" {
+		r.Label("big-array(>=1021 elements, size next to a block boundary)")
+		r.NonTrivial = true
+	}
 	r.Label("type:" + c.Typ)
 	if c.C {
 		r.Label("V:c-backed")
